@@ -91,6 +91,10 @@ def matrix_build(uncached):
         cell("T", "tw", "_model.D.w + x"),
         cell("T", "tb", "_model.D.bc(x)"),
         cell("T", "tu", "_model.P.ua(x) + 1"),
+        cell("T", "ta", "_model.P.a(x) * 2"),            # a caller in another space: survives namespace changes of P
+        {"op": "new_space", "parent": "P.Ch", "name": "Gc"},
+        cell("P.Ch.Gc", "g0", "x + 7", cached=not uncached),
+        cell("P", "cg", "Ch.Gc.g0(x) * 2"),
         cell("T", "tq", "_model.P.qobj.qc(x)"),         # object-valued references read by attribute path
         cell("T", "tc", "_model.P.qcell(x)"),
         {"op": "new_space", "name": "I", "formula": {"params": [["p", None]]}},
@@ -169,6 +173,10 @@ MATRIX_EDITS = {
     "change I.t": sref("I", "t", 90), "change I.Ch.v": sref("I.Ch", "v", 110),
     "del I.Ch.icc": {"op": "del_cells", "space": "I.Ch", "name": "icc"},
     "new cells in I.Ch": cell("I.Ch", "zz", "0"), "new ref in I.Ch": sref("I.Ch", "nr", 1),
+    "del Ch.Gc": {"op": "del_space", "path": "P.Ch.Gc"},
+    "rename Ch.Gc": {"op": "rename_space", "path": "P.Ch.Gc", "new": "Gc2"},
+    "formula Gc.g0": F("P.Ch.Gc", "g0", "x + 1007"),
+    "assign P.a[1] again": {"op": "assign", "inst": S_P, "name": "a", "args": [1], "value": 2000},
     "uncache P.a": {"op": "set_cached", "space": "P", "name": "a", "cached": False},
     "uncache Ch.cc": {"op": "set_cached", "space": "P.Ch", "name": "cc", "cached": False},
     "uncache B.bc": {"op": "set_cached", "space": "B", "name": "bc", "cached": False},
@@ -190,6 +198,10 @@ def gen_cases(tier, seed):
                        "seed": env.derive_seed(seed, ID, "mx", k, unc, pad),
                        "checkpoints": "all" if pad else "final"}
                 i += 1
+    for j, (a_, b_) in enumerate(SEQUENCES):
+        for unc in (False, True):
+            yield {"id": "sq%d_%d" % (j, unc), "kind": "sequence", "edits": [a_, b_], "uncached": unc,
+                   "seed": env.derive_seed(seed, ID, "sq", j, unc), "checkpoints": "all"}
     n = 400 if tier == "quick" else 15000
     for j in range(n):
         yield {"id": "r%d" % j, "kind": "random", "seed": env.derive_seed(seed, ID, "r", j),
@@ -197,11 +209,28 @@ def gen_cases(tier, seed):
                "checkpoints": "all" if (tier == "thorough" or j % 5 == 0) else "final"}
 
 
+SEQUENCES = [   # an input, read by dependents (also from another space), then an edit of the same cells
+    ("assign P.a[1]", "rename P.a"), ("assign P.a[1]", "del P.a"), ("assign P.a[1]", "formula P.a"),
+    ("assign P.a[1]", "assign P.a[1] again"), ("assign P.a[1]", "clear_at P.a[1]"), ("assign P.a[1]", "uncache P.a"),
+    ("assign Ch.cc[1]", "del Ch.cc"), ("assign Ch.cc[1]", "rename Ch.cc"), ("assign Q.qc[1]", "rename Q.qc"),
+    ("assign Q.qc[1]", "del Q.qc"), ("assign B.bc[1]", "del B.bc"), ("assign B.bc[1]", "rename B.bc"),
+    ("assign B.bc[1]", "remove base D<-B"), ("assign P.a[1]", "del P.Ch"), ("assign Ch.cc[1]", "rename Ch"),
+]
+
+
 def expand(case):
     if "ops" in case:
         return case
     rnd = random.Random(case["seed"])
     c = dict(case)
+    if case["kind"] == "sequence":
+        ops = matrix_build(case["uncached"])
+        ops.append({"op": "evalall"})
+        for k in case["edits"]:
+            ops.append(dict(MATRIX_EDITS[k], tag=k))
+            ops.append({"op": "evalall"})
+        c["ops"] = ops
+        return c
     if case["kind"] == "matrix":
         ops = matrix_build(case["uncached"])
         ops.append({"op": "evalall"})
